@@ -200,6 +200,8 @@ func genC05(g *gen) {
 			switch {
 			case r == "bufferReader":
 				name = "bufferReader." + name
+			case r == "FrameReader" && name == "Read":
+				name = "FrameReader.Read"
 			case r == "" && (strings.HasPrefix(name, "Decode") || name == "addressLength" || name == "prefixLength"):
 			default:
 				continue
@@ -222,7 +224,8 @@ func genC05(g *gen) {
 func oneLine(n ast.Node) string { return strings.Join(strings.Fields(src(n)), " ") }
 
 func mentionsBounds(t string) bool {
-	return strings.Contains(t, "len(") || strings.Contains(t, ".offset") || strings.Contains(t, "remaining()") || strings.Contains(t, "Offset")
+	return strings.Contains(t, "len(") || strings.Contains(t, ".offset") || strings.Contains(t, "remaining()") || strings.Contains(t, "Offset") ||
+		strings.Contains(t, "MaxPayloadSize")
 }
 
 // boundsOf lists, in source order, the bounds-relevant expressions of a function.
@@ -245,6 +248,11 @@ func boundsOf(fd *ast.FuncDecl) []string {
 				if t := oneLine(x.Cond); mentionsBounds(t) {
 					toks = append(toks, "for "+t)
 				}
+			}
+		case *ast.CallExpr:
+			// allocations and the calls that validate a length before them
+			if id, ok := x.Fun.(*ast.Ident); ok && (id.Name == "make" || id.Name == "DecodeHeader") {
+				toks = append(toks, "call "+oneLine(x))
 			}
 		case *ast.IndexExpr:
 			if isBuf(x.X) {
